@@ -127,6 +127,43 @@ def check_strings(stats, strings, style, ws):
     return None
 
 
+def check_mixed(stats, values, sstyle, cstyle, ws, order):
+    """The same byte values as string content, as char immediates and as elements of a const byte[] / int[] in ONE
+    program (the renderer of constant data serves all three contexts; a quote needs different escapes in each).
+    order 0: strings are used first in the source, 1: chars first."""
+    parts = []
+    exp = b''
+    glob = 'const byte[] kb = [%s];\n' % ', '.join(spell_char(b, cstyle) for b in values)
+    for i, b in enumerate(values):
+        s = bytes([b, 0x78, b])
+        ps = '  p(%s);\n' % spell_string(s, sstyle)
+        pc = '  write(%s); write((%s) is int); write(\';\');\n' % (spell_char(b, cstyle), spell_char(b, cstyle))
+        es = str(len(s)).encode() + b':' + s + b'|' + s + b'#'
+        ec = bytes([b]) + str(b).encode() + b';'
+        parts.append(ps + pc if order == 0 else pc + ps)
+        exp += es + ec if order == 0 else ec + es
+    src = glob + STRING_HELPER + 'empty @is_you() {\n' + ''.join(parts) + '  write(kb); write(kb.length);\n}\n'
+    exp += bytes(values) + str(len(values)).encode()
+    r, err = run_prog(src, ws)
+    stats.evaluated(len(values))
+    stats.cls('mixed_%s_%s_order%d' % (sstyle, cstyle, order), len(values))
+    for b in values:
+        if nontrivial_bytes([b]):
+            stats.nt('m:%d:%s:%s:%d:%d' % (b, sstyle, cstyle, ws, order))
+    if err:
+        return 'strings and char literals of %r in one program (styles %s/%s): %s' % (values[:6], sstyle, cstyle, err)
+    if r.outcome.startswith('asm_error'):
+        return 'output does not assemble (%s) when %r occur as string content and as char literals in one program (styles %s/%s, order %d)' % (
+            r.outcome, values[:6], sstyle, cstyle, order)
+    if r.out != exp or not r.won:
+        n = 0
+        while n < min(len(exp), len(r.out)) and exp[n] == r.out[n]:
+            n += 1
+        return 'bytes %r as string content + char literals in one program (styles %s/%s, ws %d, order %d): output differs at offset %d: %r, expected %r; flags %r' % (
+            values[:6], sstyle, cstyle, ws, order, n, r.out[max(0, n - 4):n + 12], exp[max(0, n - 4):n + 12], r.flags)
+    return None
+
+
 RAW_POINTS = ([c for c in range(0, 0x20) if c not in (0x0a, 0x0d)] + [0x7f] + list(range(0x80, 0x100)) +
               [0x100, 0x17f, 0x3a9, 0x7ff, 0x800, 0x1680, 0x180e, 0x2000, 0x200a, 0x200b, 0x2028, 0x2029, 0x202f, 0x205f, 0x2060, 0x3000,
                0xd7ff, 0xe000, 0xfeff, 0xfffd, 0xffff, 0x10000, 0x1f30e, 0x10ffff])
@@ -393,7 +430,7 @@ FORMS = ['const_global', 'mut_global', 'const_local', 'mut_local', 'argument']
 
 
 def shards(tier):
-    out = [('single', 0), ('chars', 0), ('rawtext', 0), ('rawtext', 1)]
+    out = [('single', 0), ('chars', 0), ('rawtext', 0), ('rawtext', 1), ('mixed', 0), ('mixed', 1)]
     out += [('pairs', k) for k in range(4)]
     out += [('rand_strings', k) for k in range(3)]
     out += [('arrays', el, k) for el in ('int', 'byte', 'bool', 'string') for k in range(2)]
@@ -443,6 +480,39 @@ def run_shard(desc, seed, tier):
 
         search(strat, chk_raw, seed=derive_seed(seed, 'C13', desc), max_examples=120 if tier == 'quick' else 1500, stats=stats,
                to_case=lambda v, m: {'kind': 'rawtext', 'value': [v[0], v[1]], 'message': m})
+    elif kind == 'mixed':
+        # strings, char immediates and const byte[] elements of the same values in one program; this worker process
+        # renders chars before strings (mixed 1) or strings before chars (mixed 0) for the first time, then both orders
+        k = desc[1]
+        quotes = [0x27, 0x22, 0x5c]
+        groups = [quotes, list(reversed(quotes)), [0x22], [0x27]] + [list(range(a, a + 16)) for a in range(0, 256, 16)]
+        if k == 1:
+            m = check_chars(stats, quotes + [0x41], 'named', 2)
+            if m:
+                stats.violation({'kind': 'chars', 'value': ['named', 2], 'message': m, 'signature': 'mixed:chars-first'})
+        for ws in (2, 4):
+            for gi, g in enumerate(groups):
+                for sstyle, cstyle in (('raw', 'raw'), ('named', 'named'), ('hex', 'raw'), ('raw', 'hex')):
+                    if (sstyle == 'raw' or cstyle == 'raw') and any(b < 0x20 or b > 0x7e for b in g):
+                        vals = [b for b in g if 0x20 <= b <= 0x7e]
+                    else:
+                        vals = g
+                    if not vals:
+                        continue
+                    for order in ((k, 1 - k) if gi < 4 else ((gi + k) % 2,)):
+                        m = check_mixed(stats, vals, sstyle, cstyle, ws, order)
+                        if m:
+                            stats.violation({'kind': 'mixed', 'value': [vals, sstyle, cstyle, ws, order], 'message': m, 'signature': 'mixed:%s:%s' % (sstyle, cstyle)})
+        if k == 0:
+            m = check_chars(stats, quotes + [0x41], 'named', 2)
+            if m:
+                stats.violation({'kind': 'chars', 'value': ['named', 2], 'message': m, 'signature': 'mixed:chars-last'})
+        else:
+            m = check_strings(stats, [b'"', b"'", b'\\', b'a"b\'c'], 'named', 2)
+            if m:
+                stats.violation({'kind': 'strings', 'value': [[b'"'.hex(), b"'".hex(), b'\\'.hex(), b'a"b\'c'.hex()], 'named', 2], 'message': m, 'signature': 'mixed:strings-last'})
+        stats.exhaustive = True
+        stats.sample({'kind': 'same bytes as string content, char immediates and const byte[] elements in one program', 'groups': len(groups), 'order_first': k})
     elif kind == 'chars':
         for ws in (2, 3):
             for style in ('hex', 'named', 'raw'):
@@ -518,6 +588,8 @@ def replay(case):
         return check_strings(st_, [bytes.fromhex(s) for s in v[0]], v[1], v[2])
     if case['kind'] == 'rawtext':
         return check_raw_text(st_, v[0], v[1])
+    if case['kind'] == 'mixed':
+        return check_mixed(st_, v[0], v[1], v[2], v[3], v[4])
     if case['kind'] == 'rawchars':
         return check_raw_chars(st_, v[0], v[1])
     if case['kind'] == 'chars':
